@@ -203,6 +203,7 @@ PROPS = {
             R("h26", "c14", "TestC14_ManyListeners", (300, 8, 400), (30000, 16, 10000)),
             R("h26", "c14", "TestC14_BackToBack", (160, 8, 400), (16000, 16, 10000)),
             R("h26", "c14", "TestC14_Rounds", (800, 8, 400), (80000, 16, 10000)),
+            R("h26", "c14", "TestC14_FirstContact", (160, 8, 400), (16000, 16, 10000)),
         ],
     },
     "C15": {
@@ -210,6 +211,7 @@ PROPS = {
         "units": [
             R("h26", "c15", "TestC15_Scripts", (3000, 8, 400), (200000, 16, 10000)),
             R("h26", "c15", "TestC15_SlowHook", (400, 8, 400), (40000, 16, 10000)),
+            R("h26", "c15", "TestC15_CancelledQueued", (400, 8, 400), (40000, 16, 10000)),
         ],
     },
 }
